@@ -154,7 +154,11 @@ func (w *World) keyOf(fn *ssa.Function) string {
 		return w.keyOf(fn.Parent()) + "$" + strings.TrimPrefix(fn.Name(), fn.Parent().Name()+"$")
 	}
 	if recv := fn.Signature.Recv(); recv != nil {
-		return "(" + w.typeKey(recv.Type()) + ")." + fn.Name()
+		name := fn.Name()
+		if i := strings.Index(name, "["); i > 0 {
+			name = name[:i] // method of an instantiated generic type: the receiver already names the instance
+		}
+		return "(" + w.typeKey(recv.Type()) + ")." + name
 	}
 	if fn.Pkg != nil {
 		return fn.Pkg.Pkg.Name() + "." + fn.Name()
